@@ -94,6 +94,10 @@ def lower_forwarders(facts):
             elif last == 'into' and (fc.get('trait') or '').endswith('convert::Into') and len(g) >= 2:
                 cands = [x for x in froms if _strip(_self_ty_of(facts, x)) == g[1] and
                          _strip(_trait_arg_of(facts, x, 'From')) == g[0]]
+                if not cands and (g[0].startswith('impl ') or (g[0].isidentifier() and g[0][:1].isupper() and len(g[0]) <= 2)):
+                    # `fn with_bounds(b: impl Into<Bounds>)`: inside the generic function the source type is a parameter; with
+                    # exactly one workspace `From<_> for Bounds` that impl is what every non-identity instantiation calls
+                    cands = [x for x in froms if _strip(_self_ty_of(facts, x)) == g[1]]
             elif last == 'try_into' and (fc.get('trait') or '').endswith('convert::TryInto') and len(g) >= 2:
                 cands = [x for x in try_froms if _strip(_self_ty_of(facts, x)) == g[1] and _strip(_trait_arg_of(facts, x, 'TryFrom')) == g[0]]
             elif last in ('sum', 'product') and (fc.get('trait') or '').endswith('iter::Iterator') and len(g) >= 2:
